@@ -1,12 +1,14 @@
 import Driver.Basic
 import Driver.StorageOps
+import Driver.LocationOps
 open Lean Ts.Drv
 
 namespace Ts.Drv
 
 /-- All registered op handlers; first match wins. -/
 def handlers : List Handler := [
-  StorageOps.handle
+  StorageOps.handle,
+  LocationOps.handle
 ]
 
 def dispatch (line : String) : Json :=
